@@ -57,6 +57,9 @@ PROPS["C12"]["freerun"] = {"rounds_quick": 400, "rounds_thorough": 20000, "race"
 PROPS["C11"]["freerun"] = {"rounds_quick": 600, "rounds_thorough": 20000, "race": False, "watch": ["resent", "retryproc"],
                            "meaning": "pool rounds through the real Client.RoundTrip / pickConn / roundTripOnce: a request reached a handler twice "
                                       "(the client sent again what a server had processed); RoundTrip said retry for a request a handler had been given"}
+PROPS["C11"]["probe"] = {"rounds_quick": 300, "rounds_thorough": 20000,
+                         "meaning": "goaway-gate: with the read loop held between taking a GOAWAY in and failing the streams it disclaims, a request "
+                                    "a caller starts is turned away (retryable) and no HEADERS frame with a new stream id reaches the server"}
 PROPS["C02"]["freerun"] = {"rounds_quick": 400, "rounds_thorough": 20000, "race": False, "watch": ["mismatch", "wrongerr"],
                            "meaning": "a response that is not this caller's; a caller handed a recovered panic or another request's failure"}
 
